@@ -14,6 +14,7 @@ Three parts:
     start/count range; AT5: start/count range; AT5 zero zones: request echoes).
 """
 import importlib
+import json
 import logging
 import multiprocessing
 import random
@@ -32,6 +33,8 @@ def _lean_modules():
     mods = ["PyAirtouch.Props.C09At5"]
     if os.path.exists(os.path.join(core.LEAN_DIR, "PyAirtouch", "Props", "C09At4.lean")):
         mods.append("PyAirtouch.Props.C09At4")
+    if os.path.exists(os.path.join(core.LEAN_DIR, "PyAirtouch", "Props", "C09At4b.lean")):
+        mods.append("PyAirtouch.Props.C09At4b")
     return mods
 
 
@@ -488,6 +491,7 @@ def run(ctx, deep=False):
             exc = any(ln.startswith("SUBSCRIBER-EXC") for o in outs for ln in o)
             ctx.count("not-judged:%d:%s:%s%s%s" % (gen, label, res[0] if res else "no-result", ":subscriber-exception" if exc else "",
                                                   ":" + end if end != "returned" else ""))
+    full_stack(ctx, thorough, rng)
     # tie
     gens = modelled_generations(ctx)
     ctx.count("tie:modelled-generations:%s" % ",".join(map(str, gens)))
@@ -498,6 +502,51 @@ def run(ctx, deep=False):
     tie(ctx, scripts, "C09")
 
 
+def full_stack(ctx, thorough, rng):
+    """the same guarantee through the REAL socket: connect latency below / above the 5 s limit, a refusing network, answers cut
+    into arbitrary segments with unknown / duplicate / foreign / unsolicited frames in between, silence at a step"""
+    import fullstack
+    scen = []
+    for lat in (0, 1, 8, 24, 39, 41, 56, 200):
+        for silent in (None, 0, 3, 5):
+            scen.append(dict(inst=fullstack.INST, latency=lat, silent_from=silent, horizon=lat + 120))
+    for refuse in (8, 24, 33, 48):
+        scen.append(dict(inst=fullstack.INST, refuse_until=refuse, horizon=200))
+    for _ in range(40 if thorough else 8):
+        seg = [rng.choice([1, 1, 2, 3, 5, 7, 13, 40]) for _ in range(rng.randint(1, 5))]
+        il = rng.sample(["unknown", "duplicate", "foreign", "unsolicited"], rng.randint(0, 4))
+        scen.append(dict(inst=fullstack.INST, segment=seg, interleave=il, answer_delay=rng.choice([0, 0, 1, 3]), horizon=160))
+    for gen in (4, 5):
+        ref_view = fullstack.run(gen, fullstack.SCENARIOS["plain"])["view"]
+        for sc in scen:
+            b = fullstack.run(gen, sc)
+            key = {k: v for k, v in sc.items() if k != "inst"}
+            ctx.case(("full-stack", gen, json.dumps(key, sort_keys=True)))
+            t, res = b.get("init_done_at"), b.get("init_result")
+            why = None
+            if b.get("init_raised"):
+                why = "init() raised %s" % b["init_raised"]
+            elif t is None:
+                why = "init() did not return within %d ticks" % sc["horizon"]
+            elif t > TIMEOUT:
+                why = "init() returned %s after %d ticks (the limit is %d)" % (res, t, TIMEOUT)
+            elif res is False and t != TIMEOUT:
+                why = "init() returned False after %d ticks, before the %d-tick limit" % (t, TIMEOUT)
+            elif res is True and b["view"] != ref_view and sc.get("silent_from") is None:
+                why = "init() returned True but the object model differs from the one a plainly answering console yields"
+            elif res is True and sc.get("silent_from") is not None:
+                why = "init() returned True although the console fell silent after %d answers" % sc["silent_from"]
+            ctx.count("full-stack:%d:init=%s" % (gen, res))
+            if why:
+                k2 = "C09:%d:full-stack:%s" % (gen, why.split(" ")[1])
+                ctx.violation(k2, "AirTouch %d over the real socket, console scenario %s: %s" % (gen, key, why), kind="history", level="full-stack",
+                              gen=gen, scenario=key, implementation_output={"init_result": res, "init_done_at": t}, spec_verdict=why)
+                break
+    ctx.coverage["rule"] += ("  Full stack: the real API object over the real socket and the in-memory transport; connect latency 0..200 ticks x console silent "
+                             "after 0 / 3 / 5 answers or answering, a refusing network for 8..48 ticks, answers cut into random segments with unknown / duplicate / "
+                             "foreign-addressed / unsolicited frames in front: init() returns within 40 ticks, False exactly at 40, True only with the complete model.")
+
+
 def search(ctx):
     if ctx.tier != "thorough":
         saved = list(ctx.broken)
@@ -506,6 +555,12 @@ def search(ctx):
 
 
 def replay(ctx, data):
+    if data.get("level") == "full-stack":
+        import fullstack
+        sc = dict(data["scenario"], inst=fullstack.INST)
+        b = fullstack.run(data["gen"], sc)
+        print({k: b.get(k) for k in ("init_result", "init_done_at", "init_raised")}, data.get("spec_verdict"))
+        return 1
     logging.disable(logging.CRITICAL)
     sc = data["scenario"]
     expected = {int(k): (v[0], {int(z): n for z, n in v[1].items()}) for k, v in data["expected"].items()}
